@@ -1,0 +1,131 @@
+//! Verification facade for the BMP unit internals (feature `verif-hooks`).
+//! Drives one BMP session state machine with raw BMP messages, without
+//! sockets. Exposes, never alters, behaviour.
+use std::sync::Arc;
+
+use bytes::Bytes;
+use routecore::bmp::message::Message as BmpMsg;
+
+use crate::comms::Gate;
+use crate::ingress;
+use crate::metrics::{OutputFormat, Source, Target};
+use crate::payload::Update;
+
+use super::metrics::BmpTcpInMetrics;
+use super::state_machine::{
+    BmpState, BmpStateMachineMetrics, MessageType, PeerAware,
+};
+use super::status_reporter::BmpTcpInStatusReporter;
+
+pub enum StepOutcome {
+    /// the bytes are not a BMP message
+    Unparsable,
+    Invalid(String),
+    Other,
+    Transition,
+    Update(Update),
+    Aborted,
+}
+
+#[derive(Clone, Debug, PartialEq, Eq)]
+pub struct PeerIdent {
+    pub peer_type: u8,
+    pub flags: u8,
+    pub distinguisher: Vec<u8>,
+    pub address: std::net::IpAddr,
+    pub asn: u32,
+    pub bgp_id: [u8; 4],
+}
+
+pub struct Session {
+    state: Option<BmpState>,
+    metrics: Arc<BmpStateMachineMetrics>,
+}
+
+impl Session {
+    /// Mirrors how `RouterHandler` creates the state machine of a new
+    /// connection: router id string = ingress id of the session.
+    pub fn new(
+        ingress_id: ingress::IngressId,
+        register: Arc<ingress::Register>,
+    ) -> Self {
+        let gate = Gate::default();
+        let unit_metrics = Arc::new(BmpTcpInMetrics::new(&gate));
+        let metrics = Arc::new(BmpStateMachineMetrics::new());
+        let reporter =
+            Arc::new(BmpTcpInStatusReporter::new("verif", unit_metrics));
+        let state = BmpState::new(
+            ingress_id,
+            Arc::new(ingress_id.to_string()),
+            reporter,
+            metrics.clone(),
+            register,
+        );
+        Self { state: Some(state), metrics }
+    }
+
+    pub fn step(&mut self, bytes: Bytes) -> StepOutcome {
+        let Ok(msg) = BmpMsg::from_octets(bytes) else {
+            return StepOutcome::Unparsable;
+        };
+        let state = self.state.take().unwrap();
+        let res = state.process_msg(std::time::Instant::now(), msg, None);
+        self.state = Some(res.next_state);
+        match res.message_type {
+            MessageType::InvalidMessage { err, .. } => {
+                StepOutcome::Invalid(err)
+            }
+            MessageType::Other => StepOutcome::Other,
+            MessageType::RoutingUpdate { update } => {
+                StepOutcome::Update(update)
+            }
+            MessageType::StateTransition => StepOutcome::Transition,
+            MessageType::Aborted => StepOutcome::Aborted,
+        }
+    }
+
+    /// 0 initiating, 1 dumping, 2 updating, 3 terminated, 4 aborted
+    pub fn phase(&self) -> u8 {
+        match self.state.as_ref().unwrap() {
+            BmpState::Initiating(_) => 0,
+            BmpState::Dumping(_) => 1,
+            BmpState::Updating(_) => 2,
+            BmpState::Terminated(_) => 3,
+            BmpState::_Aborted(..) => 4,
+        }
+    }
+
+    /// (per-peer header identity, ingress id) of every peer that is up.
+    pub fn peers(&self) -> Vec<(PeerIdent, ingress::IngressId)> {
+        let ps = match self.state.as_ref().unwrap() {
+            BmpState::Dumping(v) => &v.details.peer_states,
+            BmpState::Updating(v) => &v.details.peer_states,
+            _ => return vec![],
+        };
+        ps.get_peers()
+            .filter_map(|pph| {
+                ps.get_peer_ingress_id(pph)
+                    .map(|id| {
+                        (
+                            PeerIdent {
+                                peer_type: u8::from(pph.peer_type()),
+                                flags: pph.flags(),
+                                distinguisher: pph.distinguisher().to_vec(),
+                                address: pph.address(),
+                                asn: pph.asn().into_u32(),
+                                bgp_id: pph.bgp_id(),
+                            },
+                            id,
+                        )
+                    })
+            })
+            .collect()
+    }
+
+    /// The state machine metrics as the /metrics endpoint renders them.
+    pub fn metrics_prometheus(&self) -> String {
+        let mut target = Target::new(OutputFormat::Prometheus);
+        self.metrics.append("verif", &mut target);
+        target.into_string()
+    }
+}
